@@ -457,8 +457,13 @@ fn sieve_block(s: &SieveQS, st: &mut Sieve, roots: [&[u32]; 2], backward: bool) 
         let pq = if q > 1 { Some((p, q)) } else { None };
         let cofactor = p * q;
         //println!("i={} smooth {} cofactor {}", i, cabs, cofactor);
+        let mut relx = Uint::cast_from(xplus.abs());
+        if relx >= s.n {
+            // Only for tiny inputs: sqrt(n) + x can exceed n.
+            relx %= s.n;
+        }
         let rel = Relation {
-            x: Uint::cast_from(xplus.abs()),
+            x: relx,
             cofactor,
             cyclelen: 1,
             factors,
